@@ -338,6 +338,11 @@ def check(ctx):
                 callers = [1 for x in facts.bodies.values() if x.name in (HT + 'send', HT + 'recv') for _b, t in x.calls() if cname(t) == b.name]
                 if callers:
                     WALL = b.name
+    # SEM: send / recv summarised by P-ORDER over the order types of (clock time, wall time, message time) and compared with the
+    # hybrid-clock algorithm (hlc_abs).  Subsumes H1-H6, which are evaluated only when a construct is not modelled.
+    import hlc_abs
+    if hlc_abs.check_hlc(ctx, facts, 'C09.SEM'):
+        return
     for which in ('send', 'recv'):
         b = facts.body(HT + which)
         if b is None:
